@@ -21,6 +21,8 @@ type shadow struct {
 	locked   bool
 	full     bool // cmp after every request
 	ended    bool // no further requests (the case ran into a known finding whose consequences are open-ended)
+	priv     int  // private / public passphrase the generator believes current (only to aim the requests)
+	pub      int
 	tags     map[string]bool
 }
 
@@ -244,7 +246,7 @@ func (s *shadow) randomOp() {
 			s.nameUsed[n] = true
 			s.last[sc]++
 		}
-	case k < 97:
+	case k < 96:
 		if s.locked {
 			s.add("unlock")
 		} else {
@@ -252,7 +254,87 @@ func (s *shadow) randomOp() {
 		}
 		s.locked = !s.locked
 		s.tags["lock"] = true
+	case k < 98:
+		s.add("unlock")
+		s.locked = false
 	default:
+		s.passOp()
+	}
+}
+
+// otherThan: a passphrase id below n different from x
+func (s *shadow) otherThan(n, x int) int { return (x + 1 + s.rng.Intn(n-1)) % n }
+
+// passOp: one passphrase request (right / wrong old passphrases), followed by Unlock probes
+func (s *shadow) passOp() {
+	rng := s.rng
+	s.tags["passphrase"] = true
+	switch k := rng.Intn(10); {
+	case k < 3: // ChangePrivatePassphrase
+		old, nw := s.priv, rng.Intn(nPrivPass)
+		if rng.Intn(3) == 0 {
+			old = s.otherThan(nPrivPass, s.priv)
+		}
+		s.ops = append(s.ops, fmt.Sprintf("chpriv old=%d new=%d", old, nw))
+		if old == s.priv {
+			s.priv = nw
+		}
+		s.probes()
+	case k < 4: // ChangePublicPassphrase
+		old, nw := s.pub, rng.Intn(nPubPass)
+		if rng.Intn(3) == 0 {
+			old = s.otherThan(nPubPass, s.pub)
+		}
+		s.add(fmt.Sprintf("chpub old=%d new=%d", old, nw))
+		if old == s.pub {
+			s.pub = nw
+		}
+	case k < 8: // ChangePassphrases: both right / public wrong / private wrong / both wrong
+		po, vo := s.pub, s.priv
+		pn, vn := rng.Intn(nPubPass), rng.Intn(nPrivPass)
+		switch rng.Intn(5) {
+		case 0, 1:
+			po = s.otherThan(nPubPass, s.pub)
+			if vn == s.priv {
+				vn = s.otherThan(nPrivPass, s.priv)
+			}
+		case 2:
+			vo = s.otherThan(nPrivPass, s.priv)
+		case 3:
+			if rng.Intn(2) == 0 {
+				po, vo = s.otherThan(nPubPass, s.pub), s.otherThan(nPrivPass, s.priv)
+			}
+		}
+		s.ops = append(s.ops, fmt.Sprintf("chboth pubold=%d pubnew=%d privold=%d privnew=%d", po, pn, vo, vn))
+		if po == s.pub && vo == s.priv {
+			s.pub, s.priv = pn, vn
+		} else if po == s.pub {
+			// the unchanged code keeps the NEW public passphrase in memory after the private half failed (reported
+			// finding); the generator does not follow it: later public changes then simply hit the error path
+		}
+		s.probes()
+	default:
+		s.probes()
+	}
+}
+
+// probes: Unlock with the current / a previous / a never-set passphrase after a passphrase request
+func (s *shadow) probes() {
+	rng := s.rng
+	if rng.Intn(2) == 0 {
+		s.add("passprobe")
+		return
+	}
+	if rng.Intn(2) == 0 && !s.locked {
+		s.ops = append(s.ops, "lock")
+		s.locked = true
+	}
+	for i := 1 + rng.Intn(3); i > 0; i-- {
+		id := rng.Intn(nPrivPass)
+		s.ops = append(s.ops, fmt.Sprintf("unlock pass=%d", id))
+		s.locked = id != s.priv
+	}
+	if rng.Intn(3) > 0 {
 		s.add("unlock")
 		s.locked = false
 	}
@@ -350,6 +432,47 @@ func (s *shadow) scenario(k int) {
 		s.addThenCmp(fmt.Sprintf("rename sc=%s a=%d name=%d cf=1", scopes[sc].name, a, s.freshName()))
 		s.tags["commit-failed-eager"] = true
 		s.ended = true
+	case 9: // C05: a REFUSED combined change (one half wrong) must leave the private passphrase as it was - at once
+		// (locked and unlocked wallet) and after restart
+		if rng.Intn(2) == 0 {
+			nw := 1 + rng.Intn(nPrivPass-1)
+			s.ops = append(s.ops, fmt.Sprintf("chpriv old=0 new=%d", nw))
+			s.priv = nw
+		}
+		if rng.Intn(2) == 0 {
+			s.ops = append(s.ops, "lock")
+			s.locked = true
+		}
+		vn := s.otherThan(nPrivPass, s.priv)
+		if rng.Intn(4) > 0 {
+			// wrong old PUBLIC passphrase, right old private one
+			s.ops = append(s.ops, fmt.Sprintf("chboth pubold=%d pubnew=%d privold=%d privnew=%d",
+				s.otherThan(nPubPass, s.pub), rng.Intn(nPubPass), s.priv, vn))
+		} else {
+			// right old public passphrase, wrong old PRIVATE one
+			s.ops = append(s.ops, fmt.Sprintf("chboth pubold=%d pubnew=%d privold=%d privnew=%d",
+				s.pub, s.pub, s.otherThan(nPrivPass, s.priv), vn))
+		}
+		s.probes()
+		if rng.Intn(2) == 0 {
+			s.add(fmt.Sprintf("newaddr sc=%s a=0", scopes[sc].name))
+		}
+		s.tags["passphrase"] = true
+	case 10: // C05: a successful change (single / combined): the new passphrase works, the old one fails
+		nw := 1 + rng.Intn(nPrivPass-1)
+		if rng.Intn(2) == 0 {
+			s.ops = append(s.ops, fmt.Sprintf("chpriv old=0 new=%d", nw))
+		} else {
+			pn := rng.Intn(nPubPass)
+			s.ops = append(s.ops, fmt.Sprintf("chboth pubold=0 pubnew=%d privold=0 privnew=%d", pn, nw))
+			s.pub = pn
+		}
+		s.priv = nw
+		s.probes()
+		s.ops = append(s.ops, "lock", "unlock pass=0", fmt.Sprintf("unlock pass=%d", nw))
+		s.locked = false
+		s.createTx(sc, 0, true, "small", false)
+		s.tags["passphrase"] = true
 	case 5: // failing dry runs of every kind, then a new own account takes the number
 		s.importDry(sc, 1, "1", "1")                       // duplicate name
 		s.importDry(sc, s.freshName(), "bad", "1")         // refused xpub
@@ -363,20 +486,22 @@ func (s *shadow) scenario(k int) {
 	}
 }
 
+const nScenarios = 11
+
 func (engine) Generate(rng *rand.Rand, tier string) []core.Case {
-	nRandom, nScen := 150, 108
+	nRandom, nScen := 150, 132
 	if tier == "thorough" {
-		nRandom, nScen = 600, 300
+		nRandom, nScen = 600, 330
 	}
 	var cases []core.Case
 	for i := 0; i < nScen; i++ {
 		s := newShadow(rng, rng.Intn(5) < 2)
-		s.scenario(i % 9)
+		s.scenario(i % nScenarios)
 		for j := rng.Intn(6); j > 0 && !s.ended; j-- {
 			s.randomOp()
 		}
 		c := s.finish()
-		c.Tags = append(c.Tags, fmt.Sprintf("scenario-%d", i%9))
+		c.Tags = append(c.Tags, fmt.Sprintf("scenario-%d", i%nScenarios))
 		cases = append(cases, c)
 	}
 	for i := 0; i < nRandom; i++ {
@@ -399,6 +524,8 @@ func (engine) Generate(rng *rand.Rand, tier string) []core.Case {
 		"fundpsbt sc=wpkh a=0 coin=x", "fundpsbt sc=wpkh a=0", "importdry sc=wpkh name=2 key=9 n=1", "importdry sc=wpkh name=2 key=1 n=99",
 		"importdry sc=wpkh name=2 key=1", "import sc=wpkh name=x key=1", "import sc=wpkh key=1", "rename sc=wpkh a=0", "rename sc=wpkh name=2",
 		"newacct sc=wpkh", "newacct name=3", "newaddr sc=wpkh a=0 cf=2", "cmp cf=x", "newaddr sc=wpkh a=0 cf=0", "cmp",
+		"unlock pass=4", "unlock pass=x", "chpriv old=0", "chpriv old=0 new=4", "chpub old=3 new=0", "chpub new=1",
+		"chboth pubold=0 pubnew=1 privold=0", "chboth pubold=0 pubnew=3 privold=0 privnew=1", "passprobe", "unlock pass=0",
 	}})
 	return cases
 }
